@@ -168,9 +168,9 @@ let signal_case obs : string * string * bool =
       let parse_ok = List.for_all (fun hx -> match parse_phout true (bytes_of_hex hx) with Some _ -> true | None -> false) sample in
       let v =
         if exit <> "interrupted" then "BAD:unexpected-exit-" ^ exit
+        else if mf > 0 || not parse_ok then "BAD:malformed-line"
         else if m > 0 || t = 0 then Printf.sprintf "BAD:exit-before-aggregator-close missing=%d cut-last-line=%d" m (1 - t)
         else if d > 0 then "BAD:duplicate-lines"
-        else if mf > 0 || not parse_ok then "BAD:malformed-line"
         else if fo > 0 then "BAD:foreign-lines"
         else "ok" in
       (* the process model: the orderly execution after a signal *)
@@ -193,7 +193,7 @@ let predict (c : string) (obs : string) : string * string * bool =
         (* the specification: the implementation's line is a well-formed phout line denoting the reported sample *)
         let ok = obs <> "panic" &&
                  (match parse_phout withid (bytes_of_hex obs) with Some s' -> sample_eq s' (norm withid s) | None -> false) in
-        (p, verdict ok "line does not parse back to the reported sample", true)
+        (p, verdict ok "line-does-not-parse-back-to-the-reported-sample", true)
       end else (p, "ok", false)
   | "setters" :: ns :: tag :: id :: vals when List.length vals = 9 ->
       let v = Array.of_list vals in
@@ -207,7 +207,7 @@ let predict (c : string) (obs : string) : string * string * bool =
       if sample_ok want then begin
         let ok = obs <> "panic" &&
                  (match parse_phout true (bytes_of_hex obs) with Some s' -> sample_eq s' want | None -> false) in
-        (p, verdict ok "columns are not in the documented order", true)
+        (p, verdict ok "columns-not-in-documented-order", true)
       end else (p, "ok", false)
   | ["aggr"; fmt; q; g; per; mode; delay; _; _] ->
       aggr_case fmt (int_of_string q) (int_of_string g) (int_of_string per) mode (int_of_string delay) obs
